@@ -827,7 +827,26 @@ class PCE500Memory:
             if needs_python:
                 fallback.append((start, end))
 
+        # The memory card is served by handlers, not by an overlay payload: copy its
+        # bytes into the image so a snapshot does not lose what was stored on the card.
+        if self._card_present:
+            card_len = min(len(self._card_data), blob_len - MEMORY_CARD_SLOT_START)
+            if card_len > 0:
+                blob[
+                    MEMORY_CARD_SLOT_START : MEMORY_CARD_SLOT_START + card_len
+                ] = self._card_data[:card_len]
+
         return bytes(blob), tuple(fallback), tuple(readonly)
+
+    def restore_memory_card(self, flat_memory: bytes) -> None:
+        """Reload the memory card bytes from a flattened image (see export_flat_memory)."""
+        if not self._card_present:
+            return
+        card_len = min(len(self._card_data), len(flat_memory) - MEMORY_CARD_SLOT_START)
+        if card_len > 0:
+            self._card_data[:card_len] = flat_memory[
+                MEMORY_CARD_SLOT_START : MEMORY_CARD_SLOT_START + card_len
+            ]
 
     def apply_external_writes(self, writes: Iterable[Tuple[int, int]]) -> None:
         """Apply external-memory writes that originated from the LLAMA backend."""
